@@ -95,6 +95,16 @@ class PersistenceLandscaper(BaseEstimator, TransformerMixin):
         self._stop = value
         self._stop_fixed = value is not None
 
+    def get_params(self, deep=True):
+        # only values assigned by the user are parameters: `sklearn.base.clone` and `set_params(**get_params())`
+        # must not turn a `start`/`stop` that `fit` learned from earlier data into a user-fixed one
+        params = super().get_params(deep=deep)
+        if not self._start_fixed:
+            params["start"] = None
+        if not self._stop_fixed:
+            params["stop"] = None
+        return params
+
     def __repr__(self):
         if self.start is None or self.stop is None:
             return f"PersistenceLandscaper(hom_deg={self.hom_deg}, num_steps={self.num_steps})"
